@@ -72,6 +72,17 @@ PROPS = {
         'level_text': 'Composition only: Verus proves on the real wrapper bodies that each one-shot function returns the named composition (sha_256d = sha256 o sha256, hash_160 = ripemd160 o sha256), that Hash::hmac keys the MAC with its SECOND argument and feeds the first as message for all six instantiations, that the streaming adapters absorb by concatenation (so any chunking gives the same digest), finalise to the composition of what was absorbed, reverse exactly when the flag is set, and reset to empty, and that PBKDF2 dispatches to the PRF named by the enum, returns output_length bytes and stores the salt. The primitives themselves are uninterpreted.',
         'level_note': TB + ' Cryptographic primitives are assumed, not verified.',
     },
+    'C20': {
+        'units': {
+            'aes_glue': ['*'],
+        },
+        'assumptions': ['the aes / block-modes / ctr crates compute standard AES-CBC with PKCS#7 and AES-CTR with the IV as initial big-endian counter (spec_cbc_enc, spec_cbc_dec, spec_ctr are uninterpreted): equality with an independent AES is NOT decided by this technique',
+                        'axioms: cbc_dec(k, iv, cbc_enc(k, iv, m)) == Some(m); |cbc_enc(m)| == (|m| / 16 + 1) * 16; ctr is an involution of equal length',
+                        'GenericArray::from_slice (reached through .into()) panics unless the slice has exactly the array length'],
+        'design_ref': 'DESIGN.md section 4 C20',
+        'level_text': 'Composition only: Verus proves on the real encrypt_impl / decrypt_impl / aes_ctr bodies that each of the four modes dispatches to the named cipher with the caller key and IV (CTR from offset 0), that a key or IV of the wrong size yields Err and never a panic, that CBC decryption propagates length/padding rejection; decrypt o encrypt = id and the length laws follow from the stated cipher axioms.',
+        'level_note': TB + ' The AES primitives are assumed, not verified.',
+    },
     'C04': {
         'units': {
             'tx_cache': ['*'],
@@ -99,5 +110,4 @@ NOT_CLAIMED = {
     'C17': 'not reached yet',
     'C18': 'not applicable to contract-based verification: the behaviour lives in serde derive expansions and in serde_json/ciborium, there is no function body in /repo to put a contract on (DESIGN.md section 5)',
     'C19': 'not reached yet',
-    'C20': 'not reached yet',
 }
